@@ -22,6 +22,7 @@ import tempfile
 from pathlib import Path
 
 from .common import Ctx
+from . import sched as S
 from .sched import Scheduler
 
 DRIVERS = ["drv_db"]
@@ -74,27 +75,98 @@ def dump(dbfile):
     try:
         out = {}
         for name in ("ids_8bit", "ids_16bit", "ids_24bit", "ids_32bit", "ids_8bit_diacritic"):
-            out[name] = sorted(con.execute(f"SELECT id, description FROM {name}").fetchall())
-        out["upload"] = sorted(con.execute("SELECT id, terminal, description, size FROM upload").fetchall())
+            out[name] = sorted(con.execute(f"SELECT id, description, atime FROM {name}").fetchall())
+        out["upload"] = sorted(con.execute("SELECT id, terminal, description, size, upload_time FROM upload").fetchall())
         return out
     finally:
         con.close()
 
 
+def _prefill(dbfile, c):
+    im = _im()
+    m = im.IDManager(dbfile, max_ids_per_subspace=c.get("max_ids", 1024))
+    for j, (i, desc) in enumerate(c.get("prefill", [])):
+        m.set_id(i, desc, atime=S.BASE - S._dt.timedelta(seconds=1000 - j))
+    m.close()
+
+
 def run_schedule(c, schedule):
     td = tempfile.mkdtemp(prefix="vc03")
+    saved = S.install_fakes()
     try:
         dbfile = os.path.join(td, "s.db")
-        im = _im()
-        m = im.IDManager(dbfile, max_ids_per_subspace=c.get("max_ids", 1024))
-        for (i, desc) in c.get("prefill", []):
-            m.set_id(i, desc)
-        m.close()
-        s = Scheduler(dbfile, c["programs"], apply_op, max_ids=c.get("max_ids", 1024))
+        _prefill(dbfile, c)
+        s = Scheduler(dbfile, c["programs"], apply_op, max_ids=c.get("max_ids", 1024), seed=c.get("seed", 0))
         results = s.run(schedule)
         return results, dump(dbfile), s.trace
     finally:
+        S.uninstall_fakes(saved)
         shutil.rmtree(td, ignore_errors=True)
+
+
+def _res(r):
+    if isinstance(r, tuple) and r and r[0] == "exc":
+        return ["exc", r[1]]
+    return r
+
+
+def sequential_outcomes(c):
+    """Outcomes (results per process, final tables) of EVERY one-at-a-time ordering of the same
+    requests (program order kept per process), obtained by running the real code sequentially
+    with the same per-operation clock values and random tapes."""
+    key = json.dumps([c["programs"], c.get("prefill"), c.get("max_ids"), c.get("seed", 0)])
+    if key in _SEQ_CACHE:
+        return _SEQ_CACHE[key]
+    progs = c["programs"]
+    n = len(progs)
+    orders = set()
+
+    def rec(pos, acc):
+        if all(pos[i] == len(progs[i]) for i in range(n)):
+            orders.add(tuple(acc))
+            return
+        for i in range(n):
+            if pos[i] < len(progs[i]):
+                pos[i] += 1
+                acc.append(i)
+                rec(pos, acc)
+                acc.pop()
+                pos[i] -= 1
+
+    rec([0] * n, [])
+    outs = {}
+    im = _im()
+    saved = S.install_fakes()
+    try:
+        for order in sorted(orders):
+            td = tempfile.mkdtemp(prefix="vc03q")
+            try:
+                dbfile = os.path.join(td, "s.db")
+                _prefill(dbfile, c)
+                ms = [im.IDManager(dbfile, max_ids_per_subspace=c.get("max_ids", 1024)) for _ in range(n)]
+                pos = [0] * n
+                res = [[] for _ in range(n)]
+                for pi in order:
+                    j = pos[pi]
+                    pos[pi] += 1
+                    S.set_current(c.get("seed", 0), n, pi, j)
+                    try:
+                        r = apply_op(ms[pi], progs[pi][j])
+                    except Exception as e:  # noqa
+                        r = ("exc", type(e).__name__, str(e)[:200])
+                    res[pi].append(_res(r))
+                for m in ms:
+                    m.close()
+                outs[json.dumps([res, dump(dbfile)], sort_keys=True, default=list)] = list(order)
+            finally:
+                shutil.rmtree(td, ignore_errors=True)
+    finally:
+        S.uninstall_fakes(saved)
+    _SEQ_CACHE[key] = outs
+    return outs
+
+
+_SEQ_CACHE: dict = {}
 
 
 def judge(ctx: Ctx, c, schedule, results, final, trace):
@@ -116,6 +188,16 @@ def judge(ctx: Ctx, c, schedule, results, final, trace):
                 continue
             if op and op[0] == "get":
                 gets.setdefault((op[2], op[3], op[4]), []).append((op[1], r, pi))
+    # (iv) linearizability: results + final database equal those of SOME one-at-a-time order
+    nops = sum(len(p) for p in c["programs"])
+    if c.get("linearize", True) and nops <= 6:
+        outs = sequential_outcomes(c)
+        mine = json.dumps([[[_res(r) for (_, r) in rs] for rs in results], final], sort_keys=True, default=list)
+        ctx.count("linearizability-checked")
+        if mine not in outs:
+            ctx.violation("results and final database are not those of any one-at-a-time ordering of the same requests", case,
+                          {"results": [[_res(r) for (_, r) in rs] for rs in results], "final": final,
+                           "sequential_orders_tried": len(outs)}, key="not-linearizable:" + "+".join(sorted({op[0] for p in c["programs"] for op in p})))
     mutators = any(op[0] in ("del", "cleanup", "set") for prog in c["programs"] for op in prog)
     for (space, b, e), lst in gets.items():
         sp = im.IDSpace(*SPACES[space])
@@ -128,7 +210,7 @@ def judge(ctx: Ctx, c, schedule, results, final, trace):
         if not mutators:
             for d_ in descs:
                 ids = {r for (dd, r, _) in lst if dd == d_}
-                rows = [i for (i, dd) in final[table] if dd == d_ and sp.contains_and_in_subspace(i, im.IDSubspace(b, e))]
+                rows = [i for (i, dd, _t) in final[table] if dd == d_ and sp.contains_and_in_subspace(i, im.IDSubspace(b, e))]
                 recycling_possible = live_before + len(descs - pre_descs) > min(size, c.get("max_ids", 1024)) if size <= 1024 else False
                 if (len(ids) > 1 or len(rows) > 1) and not recycling_possible:
                     ctx.violation("concurrent requests for one description ended with more than one ID bound to it", case,
@@ -139,7 +221,7 @@ def judge(ctx: Ctx, c, schedule, results, final, trace):
             for (d_, r, _) in lst:
                 byid.setdefault(r, set()).add(d_)
             shared = {i: sorted(v) for i, v in byid.items() if len(v) > 1}
-            lost = [d_ for d_ in descs if not any(dd == d_ for (_, dd) in final[table])]
+            lost = [d_ for d_ in descs if not any(dd == d_ for (_, dd, _t) in final[table])]
             if shared or lost:
                 ctx.violation("two descriptions were given the same ID (or one lost its ID) while free IDs existed", case,
                               {"shared": shared, "lost": lost}, key="shared-id-while-free")
